@@ -384,8 +384,9 @@ Definition bounded (n : nat) (srcs : list (option node)) : Prop :=
 Record vis_ok (vis : visitor) : Prop := mkVisOk {
   vm_ok : forall n srcs vr, bounded n srcs -> v_map vis srcs = Ok vr ->
           bounded n (fst vr) /\ (forall x k, snd vr = VNew x k -> depth x <= n);
-  vl_ok : forall b n srcs vr, bounded n srcs -> v_list vis b srcs = Ok vr ->
-          bounded n (fst vr) /\ (forall x k, snd vr = VNew x k -> depth x <= n);
+  (* VisitList is only called when some source is a non-null sequence, hence on sources of depth >= 1 *)
+  vl_ok : forall b m srcs vr, bounded (S m) srcs -> v_list vis b srcs = Ok vr ->
+          bounded (S m) (fst vr) /\ (forall x k, snd vr = VNew x k -> depth x <= S m);
   vs_ok : forall n srcs r, bounded n srcs -> v_scalar vis srcs = Ok r ->
           forall x k, r = VNew x k -> depth x <= n;
   vm_nd : forall srcs, v_map vis srcs <> Diverge;
